@@ -251,7 +251,7 @@ fn o_period(u: U) -> i32 {
     }
 }
 
-//@ unit c10_date prop=C10,C02,C03 chunks=ints:0,4,1,3,6,7,8,9,10,11,2,5 mem=4 timeout=1500/3600 stubs=crate::common::julian2date=>crate::verif_support::ghost_julian2date quick=first:2 bound="every real date 0001-01-01..9999-12-31 (as a triple) for the truncation unit given by the parameter (0 century, 1 year, 2 ISO year, 3 quarter, 4 month, 5 week, 6 ISO week, 7 month-anchored week, 8 day, 9 Sunday week, 10 hour, 11 minute) on Date"
+//@ unit c10_date prop=C10,C02,C03 chunks=ints:2,0,4,1,3,6,7,8,9,10,11,5 mem=4 timeout=2000/3600 stubs=crate::common::julian2date=>crate::verif_support::ghost_julian2date quick=first:3 bound="every real date 0001-01-01..9999-12-31 (as a triple) for the truncation unit given by the parameter (0 century, 1 year, 2 ISO year, 3 quarter, 4 month, 5 week, 6 ISO week, 7 month-anchored week, 8 day, 9 Sunday week, 10 hour, 11 minute) on Date"
 fn c10_date(unit: u8) {
     let u = unit_of(unit);
     let (x, (y, m, d)) = ghost_date(1, 9999);
